@@ -4,11 +4,11 @@ from vlib import core
 
 THEOREMS = ["Props.C15." + t for t in [
     "schema_agrees", "schema_ok", "const_value_type_numbering", "requiredness_strings", "uuid_key_agrees",
-    "describe_faithful_partial", "describe_loses_include", "describe_loses_namespace", "annotations_keep_all_values",
+    "describe_faithful_partial", "describe_loses_include", "describe_keeps_first_namespace", "annotations_keep_all_values",
     "const_value_faithful", "type_expr_faithful",
     "welltyped_check_sound", "descriptor_roundtrip",
     "register_closed", "lookup_finds_partial", "typedesc_and_method_lookup_finds", "lookup_collision_witness", "field_lookup_finds",
-    "const_type_unregistered", "gotype_bijection_partial", "gotype_alias_witness"]]
+    "const_type_registered", "gotype_bijection_partial", "gotype_alias_witness"]]
 
 
 def run(ctx):
@@ -23,8 +23,8 @@ def run(ctx):
                         "after sorting map entries (byte order on the wire, text order in dumps)",
                         "meta.Marshal/Unmarshal behave as the shared schema-driven codec Gen.Std at the regenerated schema "
                         "(checked by the M/U correspondence ops on every descriptor produced)"]
-    ctx.partial += ["describe_faithful_partial: needs pairwise distinct include base names, namespace languages and annotation keys "
-                    "(the last is guaranteed by the parser, proved as annotations_keep_all_values); negative witnesses replayed",
+    ctx.partial += ["describe_faithful_partial: needs pairwise distinct include base names and annotation keys "
+                    "(the latter guaranteed by the parser, proved as annotations_keep_all_values); negative witness replayed",
                     "lookup_finds_partial: needs distinct include base names in the looking file, non-empty filenames and a registered "
                     "uuid; lookups with filepath \"\" (Go map iteration, nondeterministic) are outside",
                     "gotype_bijection_partial: registry model only; reflect.Type identity of generated Go types is outside Lean "
